@@ -30,6 +30,11 @@ func (s *Server) DocumentLink(ctx context.Context, params *protocol.DocumentLink
 	var links []protocol.DocumentLink
 
 	for _, inc := range journal.Includes {
+		// The link is the path, not the whole directive.
+		rng := inc.PathRange
+		if rng.Start.Line == 0 {
+			rng = inc.Range
+		}
 		includePath := inc.Path
 		if !filepath.IsAbs(includePath) {
 			includePath = filepath.Join(currentDir, includePath)
@@ -41,12 +46,12 @@ func (s *Server) DocumentLink(ctx context.Context, params *protocol.DocumentLink
 		links = append(links, protocol.DocumentLink{
 			Range: protocol.Range{
 				Start: protocol.Position{
-					Line:      uint32(inc.Range.Start.Line - 1),
-					Character: uint32(inc.Range.Start.Column - 1),
+					Line:      uint32(rng.Start.Line - 1),
+					Character: uint32(rng.Start.Column - 1),
 				},
 				End: protocol.Position{
-					Line:      uint32(inc.Range.End.Line - 1),
-					Character: uint32(inc.Range.End.Column - 1),
+					Line:      uint32(rng.End.Line - 1),
+					Character: uint32(rng.End.Column - 1),
 				},
 			},
 			Target: target,
